@@ -161,6 +161,7 @@ type builder struct {
 	cache   map[uint64][]*ProofNode
 	onStack map[uint64]bool
 	ruleIDs map[string]string // rule.String() -> rule content ID
+	cuts    int               // how often a goal was refused because it is on the stack
 }
 
 func (b *builder) build(goal ast.Atom, depth int) []*ProofNode {
@@ -168,14 +169,20 @@ func (b *builder) build(goal ast.Atom, depth int) []*ProofNode {
 		return []*ProofNode{{Fact: goal, Partial: true, ID: partialID(goal)}}
 	}
 	h := goal.Hash()
-	if cached, ok := b.cache[h]; ok {
-		return cached
-	}
 	if b.onStack[h] {
+		b.cuts++
 		return nil
+	}
+	if cached, ok := b.cache[h]; ok {
+		// See explainer.explain: a cached proof is only reusable if it does
+		// not pass through a goal that is being proved right now.
+		if usable := withoutOnStack(cached, b.onStack); len(usable) > 0 || len(cached) == 0 {
+			return usable
+		}
 	}
 	b.onStack[h] = true
 	defer delete(b.onStack, h)
+	cutsBefore := b.cuts
 
 	var proofs []*ProofNode
 	events := b.rec.EventsFor(goal)
@@ -198,7 +205,9 @@ func (b *builder) build(goal ast.Atom, depth int) []*ProofNode {
 		}
 		proofs = append(proofs, p)
 	}
-	b.cache[h] = proofs
+	if len(proofs) > 0 || b.cuts == cutsBefore {
+		b.cache[h] = proofs
+	}
 	return proofs
 }
 
